@@ -324,3 +324,15 @@ def _(h):
     M = h.mat('M', 3, 3, -2, 2)
     X = SO3(M, check=False)
     h.same('stored as given', X.A, M)
+
+
+# ----------------------------------------------------------------------------- UnitQuaternion built from a 3x3 array
+
+for _how in ('reflection', 'scaled', 'sheared'):
+    @claim(f'UnitQuaternion-rejects:{_how}', split=True)
+    def _(h, how=_how):
+        """UnitQuaternion(M) for a 3x3 array that is not a rotation: rejected with checking on (the default), as a bare array
+        and inside the containers the constructor accepts; never an object holding a quaternion of a non-rotation"""
+        M = bad3(h, how)
+        h.raises('bare 3x3 array', lambda: UnitQuaternion(M))
+        h.raises('check=True explicitly', lambda: UnitQuaternion(M, check=True))
